@@ -772,7 +772,9 @@ wavlike_ima_seek (SF_PRIVATE *psf, int mode, sf_count_t offset)
 	{	psf_fseek (psf, psf->dataoffset, SEEK_SET) ;
 		pima->blockcount = 0 ;
 		if (!pima->decode_block)
+		{	psf->error = SFE_BAD_SEEK ;
 			return PSF_SEEK_ERROR ;
+			} ;
 
 		pima->decode_block (psf, pima) ;
 		pima->samplecount = 0 ;
